@@ -194,13 +194,25 @@ class StateAnalysis:
             if r is False or (r is None and cq in owners):
                 return False
             todo += g.subclasses(cq)
+        def literal(x):
+            return x.value if isinstance(x, ast.Constant) and isinstance(x.value, str) else None
         for f in g.fns.values():
+            literal_vars = set()         # vars(cls)["other"]: a literal key other than this name reaches another attribute
+            for n in ast.walk(f.node):
+                if isinstance(n, ast.Subscript) and isinstance(n.value, ast.Call) and isinstance(n.value.func, ast.Name) \
+                        and n.value.func.id == "vars" and literal(n.slice) not in (None, name):
+                    literal_vars.add(id(n.value))
+                if isinstance(n, ast.Compare) and len(n.comparators) == 1 and isinstance(n.ops[0], (ast.In, ast.NotIn)) \
+                        and isinstance(n.comparators[0], ast.Call) and literal(n.left) not in (None, name):
+                    literal_vars.add(id(n.comparators[0]))          # "other" in vars(cls)
             for n in ast.walk(f.node):
                 if isinstance(n, ast.Attribute) and n.attr == name and is_class_ref(g, n.value):
                     return False
-                if isinstance(n, ast.Call) and isinstance(n.func, ast.Name) and n.func.id in ("getattr", "setattr", "delattr", "vars") \
-                        and n.args and is_class_ref(g, n.args[0]):
-                    return False
+                if isinstance(n, ast.Call) and isinstance(n.func, ast.Name) and n.args and is_class_ref(g, n.args[0]):
+                    if n.func.id in ("getattr", "setattr", "delattr") and (len(n.args) < 2 or literal(n.args[1]) in (None, name)):
+                        return False
+                    if n.func.id == "vars" and id(n) not in literal_vars:
+                        return False
         return True
 
     def object_global(self, f, root, chain, local_names):
